@@ -408,7 +408,9 @@ func GetHTTPRequest(ctx *core.Context, r *http.Request) (map[string]interface{},
 
 func protest(ctx *core.Context, err error, w http.ResponseWriter) {
 	w.WriteHeader(http.StatusBadRequest)
-	fmt.Fprintf(w, err.Error())
+	// The message isn't a format: it can quote the request ("not
+	// found: 100%sure").
+	fmt.Fprint(w, err.Error())
 }
 
 func (s *HTTPService) ServeHTTP(w http.ResponseWriter, r *http.Request) {
